@@ -300,7 +300,25 @@ u_table(uint64_t idx, void *arg)
     uint32_t a0 = lo >= 2 ? lo - 2 : 0;
     nwrites = 0;
     static unsigned char words[128];
-    for (uint32_t addr = a0; addr <= hi + 2; addr++)
+    for (uint32_t addr = a0; addr <= hi + 2; addr++) {
+        /* now and then a float register holds something that does not decode (a device that reads back ffff, words
+         * planted by the unchecked calls): what counts for a block that replaces part of it is the content AFTER
+         * the overlay - such a write may be exactly what repairs the register */
+        if ((addr & 3u) == 1u)
+            for (int i = 0; i < d.nregs; i++) {
+                const struct rt_reg *r = &d.reg[i];
+                if (r->type < REG_TYPE_FLOAT32 || ((uint32_t)i + addr) % 3u)
+                    continue;
+                int ai = rt_area_of(&d, r->addr);
+                if (ai < 0 || d.area[ai].noread)
+                    continue;
+                static const uint64_t bad32[] = { 0x7fc00000u, 0xff800000u, 0x00000001u, 0xffffffffu };
+                static const uint64_t bad64[] = { 0x7ff8000000000000ull, 0xfff0000000000000ull, 0x0000000000000001ull, 0xffffffffffffffffull };
+                uint64_t bits = r->type == REG_TYPE_FLOAT32 ? bad32[(addr >> 2) & 3u] : bad64[(addr >> 2) & 3u];
+                rt_encode(r->type, d.bigendian, bits, rt_model_word(&inst, r->addr));
+                memcpy(inst.store[ai] + (r->addr - d.area[ai].base), rt_model_word(&inst, r->addr), 2 * (size_t)rt_tsize[r->type]);
+                VH_COUNT("float register holding undecodable content before a block write");
+            }
         for (uint32_t n = 0; n <= span + 3 && n < 64; n++) {
             if (!vh_tier && n > 9 && !(addr + n >= hi) && !vh_chance(&rg, 1, 4))
                 continue;
@@ -314,6 +332,7 @@ u_table(uint64_t idx, void *arg)
                 one_write(addr, n, words, patname[pat]);
             }
         }
+    }
     /* requests much longer than the table (lengths beyond 255 and 65535 words): they leave the mapped range, so
      * they must be refused without any effect - at the first unmapped address, or for another applicable reason */
     {
